@@ -28,12 +28,14 @@ Theorem C11_wait_after_stop : forall v env s,
    | VGetSig | VGetSigTimed | VGetSigReader | VGetSigTimedReader | VGetSigPoll
                    | VGetSigF | VGetSigTimedF | VGetSigReaderF | VGetSigTimedReaderF | VGetSigPollF => m_exc (tw s) = true \/ m_sig (tw s) = true
    | VLoop => m_fin (tw s) = true
+   | VLoopFinWait => m_fin (tw s) = true /\ m_exc (tw s) = true
    end).
 Proof.
   intros v env s R L. pose proof (late_wait v env s R) as H. unfold inv_late in H.
   rewrite L in H. simpl in H. apply andb_true_iff in H as [H1 H2]. split.
   - destruct (pk (tw s)); congruence.
-  - intro D. rewrite D in H2. simpl in H2. destruct v; auto; apply orb_true_iff in H2; exact H2.
+  - intro D. rewrite D in H2. simpl in H2.
+    destruct v; auto; try (apply orb_true_iff in H2; exact H2); apply andb_true_iff in H2; exact H2.
 Qed.
 Print Assumptions C11_wait_after_stop.
 
@@ -46,12 +48,24 @@ Proof.
 Qed.
 Print Assumptions C11_finalize.
 
+(* a wait INSIDE the finalisation step of a loop task: the loop is only left after a stop request, so this wait begins
+   after stop() was called; it ends with the stop exception and never by waiting out its timeout *)
+Theorem C11_finalize_wait_released : forall env s,
+  Reachable VLoopFinWait env s -> done (progs VLoopFinWait env) s TW = true ->
+  m_fin (tw s) = true /\ m_exc (tw s) = true /\ m_tmo (tw s) = false.
+Proof.
+  intros env s R D. pose proof (finalize VLoopFinWait env s R) as H. unfold inv_finalize in H.
+  rewrite D in H. simpl in H. apply andb_true_iff in H as [H H3]. apply andb_true_iff in H as [H1 H2].
+  apply negb_true_iff in H3. auto.
+Qed.
+Print Assumptions C11_finalize_wait_released.
+
 (* a finished wait has exactly one outcome: stop exception, signal, or full timeout *)
 Theorem C11_one_outcome : forall v env s,
-  Reachable v env s -> done (progs v env) s TW = true -> v <> VLoop ->
+  Reachable v env s -> done (progs v env) s TW = true -> v <> VLoop -> v <> VLoopFinWait ->
   Nat.b2n (m_exc (tw s)) + Nat.b2n (m_sig (tw s)) + Nat.b2n (m_tmo (tw s)) = 1.
 Proof.
-  intros v env s R D NL. pose proof (outcome v env s R) as H. unfold inv_outcome in H.
+  intros v env s R D NL NL2. pose proof (outcome v env s R) as H. unfold inv_outcome in H.
   rewrite D in H. simpl in H. destruct v; try congruence; apply Nat.eqb_eq in H; exact H.
 Qed.
 Print Assumptions C11_one_outcome.
